@@ -366,7 +366,9 @@ class ClientNames(Obligation):
                  "pyopenapi_gen.emitters.endpoints_emitter:EndpointsEmitter.emit"]
     alphabet = ID_ALPHA
     TAGSETS = {"shared_second": [["x", "c"], ["c"]], "shared_second_rev": [["c"], ["x", "c"]], "both_second": [["x", "c"], ["y", "c"]],
-               "three": [["x", "c"], ["c"], ["c", "x"]]}
+               "three": [["x", "c"], ["c"], ["c", "x"]],
+               # different spellings of ONE tag end up in one client: names must be unique there too
+               "case_variants": [["Users"], ["users"]], "punct_variants": [["user-data"], ["user_data"]], "variant_second": [["x", "Users"], ["users"]]}
 
     def __init__(self, shape, lens):
         self.shape, self.lens = shape, tuple(lens)
@@ -460,9 +462,68 @@ def mk_status(as_int, sibling=False):
     return StatusKey(as_int, sibling)
 
 
+# ------------------------------------------------------------------ K4
+METHODS = ["get", "put", "post", "delete", "options", "head", "patch", "trace"]  # OpenAPI 3 Path Item operation fields
+SIBLINGS = [None, "parameters", "summary", "description", "servers", "x-internal"]
+
+
+def k_methods(P, m1, m2, sibling, opid):
+    """one path item carrying operations under the methods m1 and m2 (m2 may equal m1 -> one operation) next to a
+    non-operation field -> sorted (method, path) pairs out"""
+    ops_mod = import_module(P.__name__ + ".core.loader.operations")
+    ctx_mod = import_module(P.__name__ + ".core.parsing.context")
+    D = hook.SDict if _inst(P) else dict
+    item = D()
+    if sibling == "parameters":
+        item["parameters"] = []
+    elif sibling == "servers":
+        item["servers"] = [D(url="/")]
+    elif sibling is not None:
+        item[sibling] = "text"
+    item[m1] = D(operationId=opid, responses=OK_RESP)
+    if m2 != m1:
+        item[m2] = D(responses=OK_RESP)
+    paths = D()
+    paths["/x"] = item
+    ops = ops_mod.parse_operations(paths, D(), D(), D(), ctx_mod.ParsingContext())
+    return sorted((o.method.value.upper(), o.path) for o in ops)
+
+
+class Methods(Obligation):
+    functions = ["pyopenapi_gen.core.loader.operations.parser:parse_operations"]
+    alphabet = ID_ALPHA
+
+    def __init__(self, n):
+        self.n = n
+        self.name = "methods/id_len=%d" % n
+        self.bounds = {"methods": METHODS, "non-operation sibling field": SIBLINGS, "operationId_len": n}
+
+    def make_inputs(self, e):
+        return {"m1": METHODS[e.choose(len(METHODS), "m1")], "m2": METHODS[e.choose(len(METHODS), "m2")], "sibling": SIBLINGS[e.choose(len(SIBLINGS), "sib")],
+                "opid": mk_sym_str(self.n, "opid", ID_ALPHA)}
+
+    def run_sym(self, inp):
+        return call_catching(k_methods, _I(), inp["m1"], inp["m2"], inp["sibling"], inp["opid"])
+
+    def run_real(self, inp):
+        return call_catching(k_methods, _R(), inp["m1"], inp["m2"], inp["sibling"], inp["opid"])
+
+    def prop(self, inp, r):
+        if isinstance(r, Raised):
+            return True
+        return r == sorted({(inp["m1"].upper(), "/x"), (inp["m2"].upper(), "/x")})
+
+    def describe_violation(self, inp, r):
+        return "path item with operations %s/%s next to %r -> operations out %r" % (inp["m1"], inp["m2"], inp["sibling"], r)
+
+
+def mk_methods(n):
+    return Methods(n)
+
+
 # ------------------------------------------------------------------ run
 def specs(tier):
-    out = [(MOD, "mk_status", (True,)), (MOD, "mk_status", (False,)), (MOD, "mk_status", (True, True)), (MOD, "mk_status", (False, True))]
+    out = [(MOD, "mk_methods", (1,)), (MOD, "mk_status", (True,)), (MOD, "mk_status", (False,)), (MOD, "mk_status", (True, True)), (MOD, "mk_status", (False, True))]
     q = tier == "quick"
     for shape in ClientNames.TAGSETS:
         k = len(ClientNames.TAGSETS[shape])
@@ -511,6 +572,8 @@ def replay(path):
         shape = tuple(int(x) for x in parts[1].split("=")[1].split("+"))
         lens = [len(v["inputs"][k]) for k in sorted(v["inputs"])]
         ob = Routing(shape, lens)
+    elif parts[0] == "methods":
+        ob = Methods(int(parts[1].split("=")[1]))
     elif parts[0] == "client_names":
         ob = ClientNames(parts[1], [len(v["inputs"][k]) for k in sorted(v["inputs"])])
     else:
